@@ -503,10 +503,11 @@ class GMMMachine(BaseEstimator):
 
         if self.ubm is not None:
             self.means = copy.deepcopy(self.ubm.means)
-            self.variances = copy.deepcopy(self.ubm.variances)
+            # thresholds first: the variances setter clamps to the thresholds
             self.variance_thresholds = copy.deepcopy(
                 self.ubm.variance_thresholds
             )
+            self.variances = copy.deepcopy(self.ubm.variances)
             self.weights = copy.deepcopy(self.ubm.weights)
         else:
             self.weights = np.full(
@@ -729,10 +730,10 @@ class GMMMachine(BaseEstimator):
         """Populates gaussians parameters with either k-means or the UBM values."""
         if self.trainer == "map":
             self.means = copy.deepcopy(self.ubm.means)
-            self.variances = copy.deepcopy(self.ubm.variances)
             self.variance_thresholds = copy.deepcopy(
                 self.ubm.variance_thresholds
             )
+            self.variances = copy.deepcopy(self.ubm.variances)
             self.weights = copy.deepcopy(self.ubm.weights)
         else:
             logger.debug("GMM means was never set. Initializing with k-means.")
